@@ -76,17 +76,20 @@ theorem invL_reach {c : Conf} (h : Reach C O st0 script picks c) : InvL C c := b
   · intro h; cases h
   · intro _ _ _ h; cases h
 
-theorem invP_reach {c : Conf} (h : Reach C O st0 script picks c) : InvP C c := by
-  refine reach_ind (P := InvP C) ?_ (fun c _ hc => invP_step C O c hc) c h
-  refine ⟨?_, ?_, ?_⟩
-  · intro h; cases h
-  · intro h; cases h
-  · intro _ _ h; cases h
-
 theorem invS_reach {c : Conf} (h : Reach C O st0 script picks c) : InvS script c := by
   refine reach_ind (P := InvS script) ?_ (fun c _ hc => invS_step C O script c hc) c h
   refine ⟨fun p hp => hp, ?_⟩
   intro h; cases h
+
+theorem invP_reach {c : Conf} (h : Reach C O st0 script picks c) : InvP C script c := by
+  refine reach_ind (P := InvP C script) ?_ ?_ c h
+  · refine ⟨?_, ?_, Or.inl rfl, ?_, ?_⟩
+    · intro h; cases h
+    · intro _ h; cases h
+    · intro h; cases h
+    · intro _ _ _ h; cases h
+  · intro c hc hp
+    exact invP_step C O script c (invS_reach hc).sub hp
 
 theorem invQ_reach {c : Conf} (h : Reach C O st0 script picks c) : InvQ c := by
   refine reach_ind (P := InvQ) ?_ (fun c _ hc => invQ_step C O c hc) c h
